@@ -74,8 +74,11 @@ def explore_flow(S, K, want=('C04', 'C05', 'C06')):
                     flags[nodes[i].nid] = (z3.Bool('none%d' % i), z3.Bool('sb%d' % i), z3.Bool('sa%d' % i))
             produced = []
 
+            ctxs = {}
+
             def producer(mm, args):
                 node = mm.load(args[1]) if isinstance(args[1], Ref) else args[1]
+                ctxs[node.nid] = args[0]
                 none, sb, sa = flags[node.nid]
                 if mm.ctx.branch(none):
                     return FLOW_NONE
@@ -87,8 +90,9 @@ def explore_flow(S, K, want=('C04', 'C05', 'C06')):
                 return dict(children=list(combo), spaces={str(i): nodes[i].text.concrete(mdl) for i, c in enumerate(combo) if c == 'space'},
                             items={str(i): dict(none=model_bool(mdl, flags[nodes[i].nid][0]), space_before=model_bool(mdl, flags[nodes[i].nid][1]),
                                                 space_after=model_bool(mdl, flags[nodes[i].nid][2])) for i, c in enumerate(combo) if nodes[i].nid in flags})
+            c_in = pp.context()
             try:
-                doc = m.call_fn(fn, [pr, pp.context(), ListIter(nodes), PyFn(producer, 'producer')])
+                doc = m.call_fn(fn, [pr, c_in, ListIter(nodes), PyFn(producer, 'producer')])
             except Panic as p:
                 S.absorb(m)
                 if 'C05' in want:
@@ -164,8 +168,21 @@ def explore_flow(S, K, want=('C04', 'C05', 'C06')):
                     else:
                         conds.append(i_eq(blank_between, b_and(a1, b2)))
                 ctx.must_hold(b_and(*conds), 'C04:flow-spacing-wrong', lambda mdl: dict(describe(mdl), atoms=show_atoms(at)))
+            # mode tracking: the child right after a hash is produced in Code mode, every other child in the incoming mode
+            if 'C04' in want:
+                conds = []
+                for i, c in enumerate(combo):
+                    nd = nodes[i]
+                    if nd.nid in ctxs:
+                        cx = ctxs[nd.nid]
+                        after_hash = i > 0 and combo[i - 1] == 'hash'
+                        conds.append(i_eq(cx.get('mode').disc, 1 if after_hash else c_in.get('mode').disc, 64))
+                        conds.append(i_eq(cx.get('break_suppressed'), c_in.get('break_suppressed')))
+                ctx.must_hold(b_and(*conds), 'C04:flow-mode-tracking-wrong', lambda mdl: dict(describe(mdl), atoms=show_atoms(at)))
             if 'line' in combo:
                 ctx.witness('flow with line comment')
+            if 'hash' in combo:
+                ctx.witness('flow with hash')
         return body
 
     for k in range(0, K + 1):
